@@ -1,8 +1,9 @@
 """C05 — quorum reads return only what enough distinct peers agree on (structural clauses)."""
 import tables as T
 from cfg import cfg_of
-from flow import Taint, Tracker, callee_matches, field_reads, op_local, prep, backward
+from flow import Taint, Tracker, callee_matches, field_reads, op_local, prep, backward, locals_of_type
 from rules import CallGuard, CallSink, CmpGuard, RetSink, AggSink, BlockSink, FieldOptGuard, compare_sites
+from rules import PL
 from props.C04 import call_results, agg_field_operands
 from props.C10 import _ConstCmp
 import panics as P
@@ -71,7 +72,7 @@ def run(R):
         hk = ta.closure(call_results(["xor_name::XorName::from_content"])(acc))
         ent = [b for b in acc.blocks if b["term"]["k"] == "call" and (b["term"]["ncallee"] or "").endswith("HashMap::entry") and not b["cleanup"]
                and "XorName" in acc.locals.get(str(op_local(b["term"]["args"][1])), "")]
-        ok = ok and len(ins) >= 2 and bool(ent) and all(op_local(b["term"]["args"][1]) in hk for b in ent)
+        ok = ok and len(ins) >= 1 and bool(ent) and all(op_local(b["term"]["args"][1]) in hk for b in ent)
         fc = [b for b in acc.blocks if b["term"]["k"] == "call" and callee_matches(b["term"], ["xor_name::XorName::from_content"])]
         vals = Taint(acc, through="all").closure({d for d, r, p in field_reads(acc, "value")})
         ok = ok and bool(fc) and all(op_local(b["term"]["args"][0]) in vals for b in fc)
@@ -169,9 +170,9 @@ def run(R):
                descr="a record is handed out as Ok only if it matches the caller's expected value")
         prep(sr)
         ta = Taint(sr, through="all")
-        rec = Taint(sr).closure(Taint(sr).var_locals("record"))
+        rec = Taint(sr).closure(PL(sr, 1))  # (senders, record, cfg)
         dm = [b for b in sr.blocks if b["term"]["k"] == "call" and callee_matches(b["term"], ["ant_networking::driver::GetRecordCfg::does_target_match"])]
-        ok = bool(dm) and all(op_local(b["term"]["args"][1]) in rec and op_local(b["term"]["args"][0]) in Taint(sr).closure(Taint(sr).var_locals("cfg")) for b in dm)
+        ok = bool(dm) and all(op_local(b["term"]["args"][1]) in rec and op_local(b["term"]["args"][0]) in Taint(sr).closure(PL(sr, 2)) for b in dm)
         if not ok:
             R.viol("C05.target.args", "target-args", "does_target_match is not applied to the record being returned with the entry's cfg", sr, sr.lines[0])
         R.inst("C05.target.args", "K6 flows-to", "does_target_match(cfg, the record returned)", len(dm), ok)
@@ -257,9 +258,11 @@ def run(R):
             R.inst("C05.dedup", "K4 gate", "de-duplication: sender attached only on key equality, and then no second kademlia.get_record", len(push), ok)
             # (6) each caller's own cfg honoured
             ta = Taint(hnc)
-            cfgs = {l for l in ta.var_locals("cfg")}
-            # cfg of this arm: the binding whose type is GetRecordCfg
-            cfgs = {l for l in cfgs if "GetRecordCfg" in hnc.locals.get(str(l), "")}
+            # the `cfg` binding of this arm: locals of type GetRecordCfg that are live in the arm's region
+            from flow import locals_of_type
+            cfgs = {l for l in locals_of_type(hnc, "ant_networking::driver::GetRecordCfg", exact=True)
+                    if any(s["d"] == [l] or (s["rv"]["k"] in ("use", "ref") and (s["rv"].get("p") or (s["rv"]["a"][1] if s["rv"]["a"][0] in ("cp", "mv") else [None]))[0] == l)
+                           for bid in region for s in g.stmts(bid))}
             tcfg = Taint(hnc).closure(cfgs)  # the caller's cfg, its copies, references and field reads only
             ok6 = False
             reach_after = g.reach(starts)
@@ -299,7 +302,18 @@ def run(R):
                         out.add(t["d"][0])
                 return Taint(b).closure(out)
             return f
-        higher = CmpGuard(cnt_of("old"), cnt_of("scratchpad"), "Lt", "old.count() < new.count()", close=False)
+        def old_cnt(b):
+            # count() of the current candidate: receiver derives from the Option<Scratchpad> candidate local
+            cand = Taint(b).closure(locals_of_type(b, "core::option::Option<ant_protocol::storage::scratchpad::Scratchpad>", exact=True))
+            return Taint(b).closure({blk["term"]["d"][0] for blk in b.blocks if blk["term"]["k"] == "call" and callee_matches(blk["term"], [PAD + "::count"])
+                                     and op_local(blk["term"]["args"][0]) in cand})
+
+        def new_cnt(b):
+            fresh = Taint(b, through="all").closure(call_results(["ant_protocol::storage::header::try_deserialize_record"])(b)) - \
+                Taint(b).closure(locals_of_type(b, "core::option::Option<ant_protocol::storage::scratchpad::Scratchpad>", exact=True))
+            return Taint(b).closure({blk["term"]["d"][0] for blk in b.blocks if blk["term"]["k"] == "call" and callee_matches(blk["term"], [PAD + "::count"])
+                                     and op_local(blk["term"]["args"][0]) in fresh})
+        higher = CmpGuard(old_cnt, new_cnt, "Lt", "old.count() < new.count()", close=False)
         noold = FieldOptGuard("?", ("None",))
         # `if let Some(old) = &valid_scratchpad`: discriminant of the local
         class _NoOld:
@@ -308,8 +322,7 @@ def run(R):
             def edges(self, body):
                 tr = Tracker(body)
                 n = 0
-                vs = Taint(body).var_locals("valid_scratchpad")
-                refs = Taint(body).closure(vs)
+                refs = Taint(body).closure(locals_of_type(body, "core::option::Option<ant_protocol::storage::scratchpad::Scratchpad>", exact=True))
                 for blk in body.blocks:
                     for s in blk["stmts"]:
                         if s["rv"]["k"] == "discr" and s["rv"]["p"][0] in refs and len(s["d"]) == 1:
